@@ -89,7 +89,9 @@ def run_journey(env, rn, step: int, kind: str, o_cell: str, d_cell: str):
             findings.append(("moved_by_instruction", (kind,), f"applying {instr} moved the vehicle"))
         return 0, findings, "not_travelling:" + first
     route0 = tuple(a.vehicle_state.route)
-    same_cell = a.geoid == target_cell
+    # "nothing to drive" = the route has no stretch between two different places (same position; on the straight-line network, same
+    # cell).  A target in the vehicle's own cell but on another street / the other direction is reached by driving round the block.
+    same_cell = a.geoid == target_cell and all(l.start == l.end for l in route0)
     horizon = int(nominal_seconds(rn, route0) / step) + 5
     if horizon > MAX_STEPS:
         return 0, [], "outside_bound:too_many_steps"
